@@ -193,6 +193,8 @@ class ActionConfigFile(Action):
 
         with _ActionSubCommands.not_single_subcommand(), previous_config_context(cfg), skip_apply_links():
             kwargs = {"env": False, "defaults": False, "_skip_validation": True, "_fail_no_subcommand": False}
+            if not isinstance(value, str) and not hasattr(value, "__fspath__"):
+                raise TypeError(f'Parser key "{dest}": expected a path or a config string, got {value!r}')
             try:
                 cfg_path: Optional[Path] = Path(value, mode=get_config_read_mode())
             except TypeError as ex_path:
